@@ -173,6 +173,14 @@ func (c *Cache) refresh() error {
 	}
 
 	_ = scanSpecDirs(c.specDirs, func(path string, priority int, spec *Spec, err error) error {
+		// Never load anything from a directory we know is not watched because
+		// it did not exist: if it has just been (re)created, the next query
+		// adds it to the watch and refreshes. Content loaded from a directory
+		// that is not watched would stay in the cache unnoticed if that
+		// directory changed or disappeared again before it could be added.
+		if c.watch.missing[c.specDirs[priority]] {
+			return nil
+		}
 		path = filepath.Clean(path)
 		if err != nil {
 			collectError(fmt.Errorf("failed to load CDI Spec %w", err), path)
@@ -486,6 +494,7 @@ func (c *Cache) GetSpecDirErrors() map[string]error {
 type watch struct {
 	watcher *fsnotify.Watcher
 	tracked map[string]bool
+	missing map[string]bool // untracked because it does not exist
 }
 
 // Setup monitoring for the given Spec directories.
@@ -495,6 +504,7 @@ func (w *watch) setup(dirs []string, dirErrors map[string]error) {
 		err error
 	)
 	w.tracked = make(map[string]bool)
+	w.missing = make(map[string]bool)
 	for _, dir = range dirs {
 		w.tracked[dir] = false
 	}
@@ -523,6 +533,7 @@ func (w *watch) stop() {
 
 	_ = w.watcher.Close()
 	w.tracked = nil
+	w.missing = nil
 }
 
 // Watch Spec directory changes, triggering a refresh if necessary.
@@ -595,16 +606,19 @@ func (w *watch) update(dirErrors map[string]error, removed ...string) bool {
 		err = w.watcher.Add(dir)
 		if err == nil {
 			w.tracked[dir] = true
+			delete(w.missing, dir)
 			delete(dirErrors, dir)
 			update = true
 		} else {
 			w.tracked[dir] = false
+			w.missing[dir] = errors.Is(err, fs.ErrNotExist)
 			dirErrors[dir] = fmt.Errorf("failed to monitor for changes: %w", err)
 		}
 	}
 
 	for _, dir = range removed {
 		w.tracked[dir] = false
+		w.missing[dir] = true
 		dirErrors[dir] = errors.New("directory removed")
 		update = true
 	}
